@@ -51,7 +51,7 @@ func init() {
 	def("C06", "exploration", "family 'lifecycle': CLI / worker / automatic initiators, long-failing attempts, aborts, attempt limits and timeouts; history check over switch / last_switch / last_rejected_switch."+nt, familyPlan{"lifecycle", 140, 2500, false})
 	def("C07", "fault_enumeration", "family 'crashpoints': pilot run records the K external calls of the managing incarnation during the switchover; then one run per k with the manager killed right after (or before) call k, or cut from ZooKeeper; final-state oracle. Distinct = distinct crash point identity; non-trivial = the crash fired inside the procedure."+nt, familyPlan{"crashpoints", 140, 2500, false})
 	def("C08", "exploration", "family 'lost': one daemon cut from ZooKeeper over a grid of local role x replica conditions x config; reference decision (DESIGN App.D) vs statements per Lost iteration."+nt, familyPlan{"lost", 140, 2500, false})
-	def("C09", "exploration", "family 'maintenance': enter/leave full and light maintenance through the real CLI with restarts, ZK outages, operator SQL, racing requests."+nt, familyPlan{"maintenance", 140, 2500, false})
+	def("C09", "exploration", "family 'maintenance': enter/leave full and light maintenance through the real CLI with restarts, ZK outages, operator SQL, racing requests."+nt, familyPlan{"maintenance", 200, 3000, false})
 	def("C10", "exploration", "family 'repair': one-deviation grid and sampled products of initial per-node states + unregistered decoy servers; safety monitors + bounded convergence."+nt, familyPlan{"repair", 160, 3000, false})
 	def("C11", "exploration", "family 'recovery': switch away from a master in each GTID relation, recovery checker interleaved with manager iterations, resetup."+nt, familyPlan{"recovery", 140, 2500, false})
 	def("C15", "exploration", "engine B family 'dataplane': generated sequences of DCS data operations by 1-3 real zkDCS clients against a reference tree (sequential refinement when fault-free, per-operation admissibility under faults) + ephemeral lifetime."+nt, familyPlan{"dataplane", 160, 3000, false})
